@@ -10,6 +10,7 @@ import Proofs.RenderExact
 import Proofs.ParseUpdateFull
 import Proofs.ParsePad
 import Proofs.OriginRoundTrip
+import Proofs.ParseExtend
 /-!
 # C03 — messages survive render-then-parse unchanged; compression is sound
 
@@ -306,6 +307,34 @@ example : ∃ (m : Message) (o : Name), m.origin = some o ∧ isAbs o = true ∧
   · simp
   · simp
   · simp
+
+/-- Error class of one whole family of mutated wires, for *every* accepted octet string `w` (produced by the renderer or
+not, any opcode, with or without origin, `one_rr_per_rrset`, TSIG…): appending octets to it gives exactly `TrailingJunk`
+when `ignore_trailing=False`, and exactly the same message when `ignore_trailing=True`; and whatever was accepted with
+either setting is accepted unchanged with `ignore_trailing=True`.  The reader never looks beyond the last record it
+was told to read (name decoding, RDATA windows, option and TSIG field walks are all insensitive to what follows), and its
+position never leaves the message. -/
+theorem trailing_octets (cfg : PCfg) (w j : Bytes) (m : Message) (h : parseMessage cfg w = .ok m) :
+    parseMessage { cfg with ignoreTrailing := true } (w ++ j) = .ok m ∧
+    (cfg.ignoreTrailing = false → j ≠ [] → parseMessage cfg (w ++ j) = .error .trailingJunk) :=
+  ⟨parseMessage_ignore_trailing cfg w j m h, (parseMessage_junk cfg w j m h).2⟩
+
+/-- … in particular for renderings: a rendered well-formed message followed by junk is `TrailingJunk`, or — with
+`ignore_trailing=True` — parses to the message `parse_render_partial` describes -/
+theorem parse_render_trailing (m : Message) (lim : Nat) (w junk : Bytes) (hok : MsgOkP eqvSpec m) (h : m.toWire lim false = .ok w)
+    (cfg : PCfg) (horg : cfg.origin = none) (hnorr : cfg.oneRRPerRRset = false) (hkey : cfg.hasKey = true) (hj : junk ≠ []) :
+    parseMessage { cfg with ignoreTrailing := false } (w ++ junk) = .error .trailingJunk ∧
+    ∃ m' opt', parseMessage { cfg with ignoreTrailing := true } (w ++ junk) = .ok m' ∧ m'.simT eqvSpec { m with opt := opt' } ∧
+      OptPadRel m.pad m.opt opt' := by
+  obtain ⟨m', opt', hp, hs, hr⟩ := parse_toWire_pad m lim w hok h { cfg with ignoreTrailing := false } horg hnorr hkey
+  refine ⟨(parseMessage_junk _ w junk m' hp).2 rfl hj, m', opt', ?_, hs, hr⟩
+  exact parseMessage_ignore_trailing { cfg with ignoreTrailing := false } w junk m' hp
+
+-- non-vacuity: the empty message (twelve zero octets) is accepted; followed by one octet it is TrailingJunk, or accepted with ignore_trailing
+example : parseMessage {} (List.replicate 12 0) = .ok { id := 0, flags := 0 } ∧
+    parseMessage {} (List.replicate 12 0 ++ [7]) = .error .trailingJunk ∧
+    parseMessage { ignoreTrailing := true } (List.replicate 12 0 ++ [7]) = .ok { id := 0, flags := 0 } := by
+  refine ⟨rfl, rfl, rfl⟩
 
 /-- "… (equal to the original whenever it uses absolute names)": *exact* form of `parse_render_partial`.  Guard, stated
 precisely: the message is well formed as above and all its (absolute) names — owners, NS/CNAME/PTR/MX/SOA rdata names,
